@@ -564,6 +564,27 @@ func genC11(o *Out, r *rand.Rand, thorough bool) {
 		o.Count("newgames:" + kind)
 		o.Nontrivial(line)
 	}
+	// an evaluation with LARGE values in the table (TUROCHAMP's: the material ratio in thousandths, around 1000 for level material;
+	// the score may be arbitrary): the search the TUROCHAMP engine runs, over a table, position searched again and the game going
+	// on - implementation vs model (no reference column for this configuration)
+	tq := 3
+	if thorough {
+		tq = 40
+	}
+	for i := 0; i < tq; i++ {
+		start, moves, b := noRepeatLine(r, 10)
+		if b.Position().Piece(board.White, board.King) == 0 || b.Position().Piece(board.Black, board.King) == 0 {
+			continue
+		}
+		items := []string{fmt.Sprintf("s:1:%s:0", fullWin), fmt.Sprintf("s:2:%s:0", fullWin), fmt.Sprintf("s:2:%s:0", fullWin), fmt.Sprintf("s:1:%s:0", fullWin)}
+		if legal := b.Position().LegalMoves(b.Turn()); len(legal) > 0 {
+			items = append(items, "m:"+moveUci(legal[r.Intn(len(legal))]), fmt.Sprintf("s:1:%s:0", fullWin), fmt.Sprintf("s:2:%s:0", fullWin))
+		}
+		line := fmt.Sprintf("search 0 turo-quiet~ %d 0 %s ; %s", []int{1 << 10, 1 << 14}[r.Intn(2)], start, strings.Join(append(append([]string{}, moves...), items...), " "))
+		o.do(line)
+		o.Count("cfg:turo-quiet+table")
+		o.Nontrivial(line)
+	}
 	for i := 0; i < n; i++ {
 		start, moves, b := noRepeatLine(r, 12)
 		cfg := pickCfg(r, b)
